@@ -276,7 +276,8 @@ def run(ck):
                 # `const auto& x = *__beginN` — pair it with the range of the same N
                 n_ = "".join(ch for ch in ((d_.get("init") or {}).get("t") or "").split("@")[0] if ch.isdigit())
                 sfx = ("@" + d_["var"].split("@", 1)[1]) if "@" in d_["var"] else ""
-                if any(r_.split("@")[0].endswith(n_) and (("@" + r_.split("@", 1)[1]) if "@" in r_ else "") == sfx for r_ in rng):
+                decomposed = d_["var"].split("@")[0] == ""      # `const auto& [k, v] = *__beginN`: the declaration itself has no name
+                if any(r_.split("@")[0].endswith(n_) and (decomposed or (("@" + r_.split("@", 1)[1]) if "@" in r_ else "") == sfx) for r_ in rng):
                     out_.add(d_["var"])
         return out_
 
@@ -356,7 +357,14 @@ def run(ck):
         for lf in prog.lambda_by_id(smd[0]["icall"].split("#in:")[0], g):
             rv_ = {(re_.get("val") or {}).get("v") or (re_.get("val") or {}).get("root") for re_ in lf.events("return")}
             builders += [(lf, v_) for v_ in rv_ if v_]
-    pb_ = [(fn_, e) for fn_, var_ in builders for e in fn_.calls(lambda e: e.base_callee() == "std::vector::push_back" and (e.get("recv") or {}).get("v") == var_)]
+    elif smd and smd[0].get("icall"):
+        # ... or in a member helper that returns it (expanded into this function: its local carries the helper's name as a suffix)
+        short_ = strip_tmpl(smd[0]["icall"]).rsplit("::", 1)[-1]
+        for re_ in g.events("iret"):
+            v_ = (re_.get("val") or {}).get("v") or (re_.get("val") or {}).get("root") or ""
+            if v_.endswith("@" + short_):
+                builders.append((g, v_))
+    pb_ = [(fn_, e) for fn_, var_ in set(builders) for e in fn_.calls(lambda e: e.base_callee() == "std::vector::push_back" and (e.get("recv") or {}).get("v") == var_)]
     ck.require(len(pb_) == 1, "supportedMethods.push_back sites: %d" % len(pb_))
     bf, e = pb_[0]
     ok_skip = ok_match = False
@@ -412,6 +420,13 @@ def run(ck):
     # (whatever they are called), or those expressions in place
     def from_get(n_):
         vs = {d_["var"] for d_ in g.events("decl") if d_.get("var") and re.search(r"get<%d>\(" % n_, (d_.get("init") or {}).get("t") or "")}
+        # `auto [route, params, splats] = tree.findRoute(path);`: the n-th name of the decomposition is get<n> of the result
+        for d_ in g.events("decl"):
+            bs_ = d_.get("bindings") or []
+            if len(bs_) > n_ and strip_tmpl(d_.get("icall") or "") == N + "findRoute":
+                sfx_ = ("@" + d_["var"].split("@", 1)[1]) if "@" in (d_.get("var") or "") else ""
+                vs.add(bs_[n_] + sfx_)
+                vs.add(bs_[n_])
         return lib.derived_vars(g, vs) if vs else set()
     # (only the invocation of a route that came out of findRoute is judged: its bindings are the lookup's.  Another way of reaching a
     # handler -- an exact-match table for parameter-free routes -- has no bindings to pass)
